@@ -11,7 +11,7 @@ def add(id, technique, text, note, ref):
     CHECKS[id] = (technique, text, note, ref)
 
 add("C20", "property-based round trip + metamorphic re-layout + byte fuzzing (rapid; native go fuzz in thorough)",
-    "Generated configurations over the writer's 7 sections are written with WriteTOMLFile, parsed back and compared including dynamic types and float bits; the written text is then re-laid-out (comment lines, blank lines, CRLF, blanks around lines and '=') and must parse to the same data; arbitrary byte files must not panic. Exploration: many thousands of generated cases per run, nothing is proved.",
+    "Generated configurations over the writer's 7 sections are written with WriteTOMLFile, parsed back and compared including dynamic types and float bits; the written text is then re-laid-out (comment lines, inline comments behind values, blank lines, CRLF, blanks around lines and '=') and must parse to the same data; arbitrary byte files must not panic. Exploration: many thousands of generated cases per run, nothing is proved.",
     "Trusts Go's strconv and the harness comparison. Domain restricted to what the property states (no quotes/backslashes/line breaks in strings, not 'true'/'false', finite floats); an empty 'default' table and single values above bufio.Scanner's 64 KiB line limit are not generated.",
     "DESIGN.md §4 C20")
 
@@ -47,7 +47,7 @@ add("C18", "white-box invariant checking of the compiler's DataLayout over gener
     "DESIGN.md §4 C18")
 
 add("C14", "metamorphic repetition testing: generated multi-module projects compiled K times by the real CLI under generated GOMAXPROCS/hook schedules; outputs compared byte for byte",
-    "Generated projects (2-6 modules built from templates that stress literal IDs, data emission and multi-diagnostic output, one third with injected errors incl. same-line ties and lexer/parser errors in sibling modules) are compiled 4 (thorough 8) times as fresh processes under different GOMAXPROCS values and module-level schedules imposed through the verif hook; exit status, full compiler output and the generated QBE IL per module / the .wasm binary must be identical. Exploration: schedules and Go map order are sampled, not enumerated.",
+    "Generated projects (2-6 modules, imported by main directly or only through another module, built from templates that stress literal IDs, data emission and multi-diagnostic output, one third with injected errors incl. same-line ties and lexer/parser errors in sibling modules) are compiled 4 (thorough 8) times as fresh processes under different GOMAXPROCS values and module-level schedules imposed through the verif hook; exit status, full compiler output and the generated QBE IL per module / the .wasm binary must be identical. Exploration: schedules and Go map order are sampled, not enumerated.",
     "Go map iteration order can only be resampled; interleavings finer than module granularity are reached only by repetition. Assembler/linker are replaced by /bin/true for the native target (only the IL is compared). One recorded finding (schedule-dependent circular-import diagnostic) is excluded by construction.",
     "DESIGN.md §4 C14")
 
